@@ -170,6 +170,41 @@ class Analysis:
                 out |= set(self.callee_names(func, c))
         return out
 
+    def path_under(self, func, subst, goal_pred, avoid=()):
+        """A CFG path from the entry to a node satisfying goal_pred that
+        avoids `avoid` and only takes the edges that are feasible when the
+        expressions in `subst` have the given values; None if there is none."""
+        cfg = self.cfg(func)
+        ctx = K.ctx_for(self.repo, func)
+        ctx.subst = dict(subst)
+        ctx.env = {}
+        avoid_ids = set(n.id for n in avoid)
+        prev = {cfg.entry.id: None}
+        todo = [cfg.entry]
+        while todo:
+            n = todo.pop(0)
+            if goal_pred(n):
+                path = []
+                cur = n
+                while cur is not None:
+                    path.append(cur)
+                    cur = prev[cur.id]
+                return list(reversed(path))
+            want = None
+            if n.kind == 'cond':
+                try:
+                    want = bool(K.fold(n.ast, ctx))
+                except K.Unfoldable:
+                    want = None
+            for m, lab in n.succs:
+                if m.id in prev or m.id in avoid_ids:
+                    continue
+                if want is not None and lab in (True, False) and lab is not want:
+                    continue
+                prev[m.id] = n
+                todo.append(m)
+        return None
+
     def nodes_under(self, func, subst, limit=2000):
         """CFG nodes of func reachable under `subst` (see calls_under)."""
         cfg = self.cfg(func)
